@@ -28,6 +28,7 @@ def varTyIn (v : String) : CExpr → Option CT
   | .post _ _ _ => none
   | .call _ args _ _ => varTyInL v args
   | .stmtexpr _ _ e => varTyIn v e
+  | .seqexpr _ _ args _ val => (varTyInL v args).orElse (fun _ => varTyIn v val)
 def varTyInL (v : String) : List CExpr → Option CT
   | [] => none
   | a :: as => (varTyIn v a).orElse (fun _ => varTyInL v as)
